@@ -294,6 +294,10 @@ def as_window(ip, v, by_ref=False, root=None):
         return v.iter_window('pairs_owned')
     if hasattr(v, 'into_iter'):
         return v.into_iter(ip)
+    if hasattr(v, 'next'):
+        return v                      # a lazy iterator model (str::split, char_indices, ...)
+    if isinstance(v, Ref) and hasattr(read_loc(v.loc), 'next'):
+        return read_loc(v.loc)
     raise Unsupported('into_iter on %r' % (v,))
 
 
@@ -900,6 +904,13 @@ def install(ctx):
 
     @M.reg('<Iterator>::skip')
     def it_skip(ip, pc, args, dt):
+        if hasattr(args[0], 'next') and not isinstance(args[0], (Window, Adaptor)):
+            it, kk = args[0], concrete_int(args[1].t)
+            if kk is None:
+                raise Unsupported('skip(symbolic) on a lazy iterator')
+            for _ in range(kk):
+                it, _o = yield from it.next(ip)
+            return it
         it, k = as_window(ip, args[0]), args[1]
         if isinstance(it, Window):
             lo = z3.If(it.lo + k.t < it.hi, it.lo + k.t, z3.If(it.hi > it.lo, it.hi, it.lo))
@@ -935,7 +946,9 @@ def install(ctx):
                 out = out.push(r.payload[0][0])
             raise OutOfBound('collect unrolling')
         if 'HashMap' in tgt.split('<')[0]:
-            raise Unsupported('collect into HashMap')
+            s = yield from collect_seq(ip, it)
+            from models_bytes import attrs_collect
+            return attrs_collect(ip, s)
         s = yield from collect_seq(ip, it)
         return s
 
@@ -1048,7 +1061,10 @@ def install(ctx):
 
     @M.reg('HashMap::iter')
     def map_iter(ip, pc, args, dt):
-        return read_loc(args[0].loc).iter_window('pairs')
+        m_ = read_loc(args[0].loc)
+        if hasattr(m_, 'into_iter') and not hasattr(m_, 'slots'):
+            return m_.into_iter(ip)
+        return m_.iter_window('pairs')
 
     @M.reg('HashMap::entry')
     def map_entry(ip, pc, args, dt):
@@ -1101,6 +1117,16 @@ def install(ctx):
         return Ref(Loc(MapSlotRoot(e.map_loc, e.key)), True)
 
     # ---------------------------------------------------------- BTreeSet
+    @M.reg('HashMap::drain')
+    def map_drain(ip, pc, args, dt):
+        r = args[0]
+        m = read_loc(r.loc)
+        if not isinstance(m, MapM):
+            raise Unsupported('drain on %r' % (m,))
+        w = m.iter_window('pairs_owned')
+        write_loc(r.loc, MapM([]))
+        return w
+
     @M.reg('HashSet::new', 'HashSet::with_capacity', '<HashSet as Default>::default')
     def hashset_new(ip, pc, args, dt):
         return SetM.empty()
